@@ -1,0 +1,16 @@
+//go:build verif
+
+// Contracts for contract-based verification (/verif). Comment-only: with or without the
+// build tag "verif" this file adds nothing to the compiled package.
+
+package telemetry
+
+//@ func InitPhaseFromLifecyclePhase
+//@   modifies nothing
+//@   ensures [init] phase == interop.LifecyclePhaseInit ==> r1 == nil && r0 == InitInsideInitPhase
+//@   ensures [invoke] phase == interop.LifecyclePhaseInvoke ==> r1 == nil && r0 == InitInsideInvokePhase
+//@   ensures [other] phase != interop.LifecyclePhaseInit && phase != interop.LifecyclePhaseInvoke ==> r1 != nil
+//@ func InferInitType
+//@   modifies nothing
+//@ func CalculateDuration
+//@   modifies nothing
